@@ -473,8 +473,9 @@ class DiskCache(_CacheBase):
         if self.max_size is not None:
             files = self._all_files()
             for _ in range(len(files) - self.max_size):
-                oldest_file = min(files, key=lambda f: f.stat().st_ctime_ns)
-                oldest_file.unlink()
+                oldest_file = min(files, key=_ctime_ns)
+                # Another process sharing the directory might have removed it already
+                oldest_file.unlink(missing_ok=True)
                 files.remove(oldest_file)
 
     def __contains__(self, key: Hashable) -> bool:
@@ -509,6 +510,13 @@ class DiskCache(_CacheBase):
     def shared(self) -> bool:
         """Return whether the cache is shared."""
         return self.lru_cache.shared if self.with_lru_cache else True
+
+
+def _ctime_ns(path: Path) -> int:
+    try:
+        return path.stat().st_ctime_ns
+    except FileNotFoundError:  # removed by another process, treat as oldest
+        return -1
 
 
 def _pickle_key(obj: Any) -> str:
